@@ -131,6 +131,11 @@ func cmdCheck(args []string) int {
 		return 2
 	}
 	loadT := time.Since(start).Seconds()
+	for _, s := range e.specs.funcs {
+		if !s.Trusted && hasTag(s.TrustedTags, *prop) {
+			s.Trusted = true
+		}
+	}
 
 	// ---- select functions
 	var fns []*ssa.Function
@@ -179,6 +184,10 @@ func cmdCheck(args []string) int {
 				}
 				if fn.Parent() != nil && onlyInlined(fn) {
 					continue // closure that is only deferred / called in place: checked where it is inlined
+				}
+				if e.deadFuncs()[root] {
+					e.deadSkipped[root.String()] = true
+					continue // unreachable: nothing can run it
 				}
 				if !files[strings.TrimPrefix(e.fset.Position(fn.Pos()).Filename, e.repo+"/")] {
 					continue
@@ -475,6 +484,7 @@ func cmdCheck(args []string) int {
 		"known_findings":           knownLines,
 		"all_obligations":          reports,
 		"not_covered":              meta.NotCovered,
+		"unreachable_functions_left_out_of_sweeps": sortedKeys(e.deadSkipped),
 		"notes":                    notes,
 		"timeout_s":                e.timeoutS,
 		"solvers_required_to_agree": e.need,
@@ -842,3 +852,4 @@ var ordinalRe = regexp.MustCompile(`#[0-9]+$`)
 
 // stripOrdinal: "f#kind:x#3" -> "f#kind:x" (repeated instances of one obligation, e.g. through inlining)
 func stripOrdinal(s string) string { return ordinalRe.ReplaceAllString(s, "") }
+
